@@ -1137,6 +1137,14 @@ subscriber-groups:
 				MSSClamp: &interfaces.MSSClampSpec{Enabled: true, IPv4MSS: 1400, IPv6MSS: 1380}},
 			"200": {ID: 200, VLAN: 200, Description: "op", LCP: true},
 		}},
+		// a second parent: the same child names with DIFFERENT hidden state (the sidecar of deepCopyConfig is keyed
+		// by parent AND child), and hidden state of its own
+		"eth2": {Name: "eth2", Enabled: true, Subinterfaces: interfaces.SubinterfaceMap{
+			"100": {ID: 100, VLAN: 100, Description: "op2"},
+			"200": {ID: 200, VLAN: 200, SubscriberAccess: true, MSSClamp: &interfaces.MSSClampSpec{Enabled: true, IPv4MSS: 1300}},
+			"300": {ID: 300, VLAN: 300, LCP: true},
+		}},
+		"eth3": {Name: "eth3", LCP: true},
 	}
 	return cfg
 }
